@@ -12,6 +12,7 @@
 """
 import ast
 import inspect
+import os
 import z3
 import smpl_extract.cuesheet as cs
 import smpl_extract.actions as actions
@@ -336,6 +337,99 @@ def h_reject(kind: int) -> int:
             shutil.rmtree(d, ignore_errors=True)
 
 
+# ------------------------------------------------------------------ C17.textfile: parse_text_file hands over EVERY line of the file, whatever its size
+class _FakeText:
+    """text file of n lines with symbolic lengths, with the documented semantics of the io text API: readlines(hint) stops once the total
+    size of the lines read so far exceeds a positive hint; read(size) / readline(size) return at most size characters"""
+
+    def __init__(self, lens):
+        self.lens = list(lens)          # characters per line, line terminator included
+        self.i = 0                      # next line
+        self.off = 0                    # characters of line i already consumed
+
+    def __enter__(self):
+        return self
+
+    def __exit__(self, *a):
+        return False
+
+    def readlines(self, hint=-1):
+        out, total = [], 0
+        while self.i < len(self.lens):
+            out.append((self.i, self.off, self.lens[self.i]))
+            total += self.lens[self.i] - self.off
+            self.i, self.off = self.i + 1, 0
+            if hint is not None and hint > 0 and total > hint:          # CPython (C io): stops once the size read EXCEEDS the hint
+                break
+        return out
+
+    def readline(self, size=-1):
+        if self.i >= len(self.lens):
+            return ""
+        rest = self.lens[self.i] - self.off
+        if size is not None and 0 <= size < rest:
+            piece = (self.i, self.off, self.off + size)
+            self.off += size
+            return piece
+        piece = (self.i, self.off, self.lens[self.i])
+        self.i, self.off = self.i + 1, 0
+        return piece
+
+    def __iter__(self):
+        return self
+
+    def __next__(self):
+        r = self.readline()
+        if r == "":
+            raise StopIteration
+        return r
+
+    def read(self, size=-1):
+        out = []
+        while self.i < len(self.lens) and (size is None or size < 0 or size > 0):
+            r = self.readline(size if size is not None and size >= 0 else -1)
+            out.append(r)
+            if size is not None and size >= 0:
+                size -= r[2] - r[1]
+        return out
+
+
+def h_textfile(n: int, l0: int, l1: int, l2: int, l3: int) -> int:
+    """
+    pre: 1 <= n <= 4 and 1 <= l0 <= 100000 and 1 <= l1 <= 100000 and 1 <= l2 <= 100000 and 1 <= l3 <= 100000
+    post: _ == 1
+    """
+    CNT[0] += 1
+    n = conc(n, 1, 4)
+    lens = [l0, l1, l2, l3][:n]
+    if os.environ.get("VF_REAL"):
+        import tempfile
+        d = tempfile.mkdtemp(prefix="vf_c17_")
+        try:
+            fn = os.path.join(d, "big.cue")
+            want = ["R" * (ln - 1) + "\n" for ln in lens]
+            with open(fn, "w", encoding="ascii", newline="") as f:
+                f.write("".join(want))
+            got = actions.parse_text_file(fn)
+            return 1 if list(got) == want else 0
+        finally:
+            import shutil
+            shutil.rmtree(d, ignore_errors=True)
+    fake = _FakeText(lens)
+    actions.open = lambda *a, **k: fake           # the module-level name shadows the builtin for parse_text_file only
+    try:
+        got = actions.parse_text_file("big.cue")
+    finally:
+        del actions.open
+    got = list(got)
+    if len(got) != n:
+        return 0
+    for i, piece in enumerate(got):
+        if not (isinstance(piece, tuple) and piece[0] == i and piece[1] == 0 and piece[2] == lens[i]):
+            return 0                                # every line, whole, in order
+    return 1
+
+
 RUNS = ["smpl_extract.cuesheet:parse_cue_sheet", "smpl_extract.cuesheet:CueSheetFileAdapter.parse", "smpl_extract.cuesheet:CueSheetTrackAdapter.parse",
         "smpl_extract.cuesheet:get_nonempty_entry", "smpl_extract.actions:parse_text_file", "smpl_extract.actions:determine_image_type"]
 
@@ -377,5 +471,7 @@ def obligations(tier, seed):
                         timeout=T, runs=RUNS, sym="casing pattern (none/all/even/odd lines), indentation and trailing blank style, sheet shape", bound=f"{nt} track(s)", stubs=[]))
     obs.append(dict(name="C17.meaning", module="vf.props.c17", func="h_meaning", extra_pre=[], timeout=T, runs=RUNS,
                     sym="tracks, TITLE presence, INDEX 00 / INDEX 02 presence per track, data track", bound="canonical sheets of 1..3 tracks", stubs=[]))
+    obs.append(dict(name="C17.textfile", module="vf.props.c17", func="h_textfile", extra_pre=[], timeout=T, runs=RUNS, sym="length of every line (1..100000 characters)",
+                    bound="files of 1..4 lines, any sizes up to 400000 characters", stubs=["text file object with the documented readlines/read/readline semantics"]))
     obs.append(dict(name="C17.reject", module="vf.props.c17", func="h_reject", extra_pre=[], timeout=60, runs=RUNS, sym="case", bound="3 cases", stubs=["temp files", "detector stubs"]))
     return obs
